@@ -112,7 +112,7 @@ PROPS = {
     },
     "C11": {
         "level": "proof",
-        "verus": ["c11_json_writer", "c11_string_indexer", "c11_check_locales"],
+        "verus": ["c11_json_writer", "c11_string_indexer", "c11_check_locales", "c11_index_traversal"],
         "kani": [],
         "assumptions": [],
         "trusted_base": [],
